@@ -114,6 +114,22 @@ func runShapeHistory(c *fw.Ctx) {
 			state = "dirty"
 		}
 		checkShape(e, e.T, e.M.Work, "work-"+state, true)
+		// keys of the universe that are NOT in the working state (e.g. removed but not committed):
+		// no lookup by key may find them, and their rank is the rank of their successor
+		for _, k := range pl.Universe {
+			if _, present := e.M.Work[string(k)]; present {
+				continue
+			}
+			has, err1 := e.T.Has(k)
+			g, err2 := e.T.Get(k)
+			idx, v3, err3 := e.T.GetWithIndex(k)
+			rank, _ := e.M.Work.Rank(string(k))
+			if err1 != nil || err2 != nil || err3 != nil || has || g != nil || v3 != nil || idx != int64(rank) {
+				e.Bad("shape|work-"+state+"|absent-key", "key %q is not in the working state: Has=(%v,%v) Get=(%q,%v) GetWithIndex=(%d,%q,%v), want rank %d and no value", k, has, err1, g, err2, idx, v3, err3, rank)
+				break
+			}
+			c.Obs("absent_key_lookups", 1)
+		}
 		vs := e.M.Versions()
 		for i := len(vs) - 1; i >= 0 && i >= len(vs)-3; i-- {
 			it, err := e.T.GetImmutable(vs[i])
